@@ -125,9 +125,12 @@ theorem splitOn_joinWith_append (sep : Char) (ls : List Text) (rest : Text) (hne
 theorem isBlank_isWs (c : Char) (h : isBlank c = true) : isWs c = true := by
   unfold isBlank at h
   rcases Bool.or_eq_true _ _ |>.mp h with h | h
-  · have : c = ' ' := by simpa using h
-    subst this; decide
-  · have : c = '\t' := by simpa using h
+  · rcases Bool.or_eq_true _ _ |>.mp h with h | h
+    · have : c = ' ' := by simpa using h
+      subst this; decide
+    · have : c = '\t' := by simpa using h
+      subst this; decide
+  · have : c = '\r' := by simpa using h
     subst this; decide
 
 theorem filter_dropWhile {α} (p q : α → Bool) (h : ∀ x, q x = true → p x = false) (l : List α) :
@@ -575,16 +578,75 @@ theorem adjAll_of_no_hazards (L : LexIface) (kc : KwCase) (st : Style) (ts : Lis
       · have := ih (fun t ht => hv t (by simp [ht])) hh.2
         simpa [List.map_cons] using this
 
-theorem curIndent_aligned_nonneg (cfg : Config) (indent : Int) (toks : List Tok)
-    (hc : cfg.endStyle = .aligned) (hi : 0 ≤ indent) :
-    0 ≤ (curIndent cfg indent toks).1 ∧ (curIndent cfg indent toks).2 = false := by
+theorem curIndent_nonneg (cfg : Config) (indent : Int) (toks : List Tok) (hi : 0 ≤ indent) :
+    0 ≤ (curIndent cfg indent toks).1 := by
   unfold curIndent
-  split
-  · split
-    · simp only [hc]
-      exact ⟨by simp only [if_true]; omega, by simp⟩
-    · exact ⟨hi, rfl⟩
-  · exact ⟨hi, rfl⟩
+  cases toks.head? with
+  | none => exact hi
+  | some first =>
+    simp only []
+    by_cases hd : isDedentToken first = true
+    · simp only [hd, if_true]
+      cases cfg.endStyle
+      · show 0 ≤ max (indent - 1) 0
+        omega
+      · by_cases he : (!isEndKeyword first) = true
+        · simp only [he, if_true]
+          show 0 ≤ max (indent - 1) 0
+          omega
+        · simp only [he, Bool.false_eq_true, if_false]
+          exact hi
+    · simp only [hd, Bool.false_eq_true, if_false]
+      exact hi
+
+theorem nextIndent_nonneg (cur : Int) (d : Bool) (toks : List Tok) (h : 0 ≤ cur) : 0 ≤ nextIndent cur d toks := by
+  unfold nextIndent
+  cases d <;> simp only [Bool.false_eq_true, if_false, if_true] <;> split <;> omega
+
+theorem renderFrom_false_some (p : Tok) (l : List Tok) (hl : l ≠ []) :
+    renderFrom (fun _ _ => false) (some p) l = ' ' :: renderFrom (fun _ _ => false) none l := by
+  cases l with
+  | nil => exact absurd rfl hl
+  | cons x xs => simp [renderFrom]
+
+/-- The one-space fallback is the rendering that glues nothing. -/
+theorem spacedLine_eq_render (kc : KwCase) (ts : List Tok) :
+    spacedLine ts kc = render (fun _ _ => false) (ts.map (recaseTok kc)) := by
+  unfold spacedLine render
+  induction ts with
+  | nil => rfl
+  | cons t rest ih =>
+    cases rest with
+    | nil => simp [joinWith, renderFrom, recaseTok]
+    | cons u r2 =>
+      simp only [List.map_cons, joinWith] at ih ⊢
+      rw [ih]
+      have h1 : ∀ (x : Tok) (l : List Tok),
+          renderFrom (fun _ _ => false) none (x :: l) = x.text ++ renderFrom (fun _ _ => false) (some x) l := by
+        intro x l; simp [renderFrom]
+      rw [h1 (recaseTok kc t), renderFrom_false_some _ _ (by simp)]
+      simp [recaseTok]
+
+theorem adjAll_never_glued (P : Tok → Tok → Prop) (ts : List Tok) :
+    AdjAll (fun a b => (fun (_ _ : Tok) => false) a b = true → P a b) ts := by
+  induction ts with
+  | nil => simp [AdjAll]
+  | cons a rest ih =>
+    cases rest with
+    | nil => simp [AdjAll]
+    | cons b r2 => exact ⟨fun h => absurd h (by simp), ih⟩
+
+/-- The kept part of a line never ends in a carriage return ('\r' is trimmed with the blanks). -/
+theorem webCore_last_ne_cr (raw : Text) : (webCore raw).getLast? ≠ some '\r' := by
+  rcases isCore_webCore raw with h | ⟨_, ⟨x, r, hrev, hx⟩⟩
+  · rw [h]; simp
+  · intro hl
+    have : (webCore raw).reverse.head? = some '\r' := by
+      rw [List.head?_reverse]; exact hl
+    rw [hrev] at this
+    simp only [List.head?_cons, Option.some.injEq] at this
+    rw [this] at hx
+    exact absurd hx (by decide)
 
 def tk (name : String) (kind : K) (text : String) : Tok := { name := name, kind := kind, text := text.toList }
 
@@ -780,5 +842,30 @@ theorem sublist_filter_flatMap {α β} (p : α → Bool) (f : α → β) (g : α
     | true =>
       simp only [if_true, List.map_cons, h x hp, List.singleton_append]
       exact List.Sublist.cons_cons _ ih
+
+theorem Rel.length {a b : List OutLine} (h : Rel a b) : b.length = a.length := by
+  induction h with
+  | nil => rfl
+  | cons _ _ ih => simp [ih]
+
+theorem runLines_length (cfg : Config) (ls : List LineIn) (st : St) (outs : List OutLine)
+    (h : runLines cfg st ls = some outs) : outs.length = ls.length := by
+  induction ls generalizing st outs with
+  | nil =>
+    simp only [runLines, Option.some.injEq] at h
+    subst h
+    rfl
+  | cons l rest ih =>
+    unfold runLines at h
+    split at h
+    · exact absurd h (by simp)
+    · rename_i o st' _
+      split at h
+      · exact absurd h (by simp)
+      · rename_i os hos
+        simp only [Option.some.injEq] at h
+        rw [← h]
+        simp [ih st' os hos]
+
 
 end TrustVerif.C15
